@@ -33,6 +33,11 @@ def gen_for(pid, rng, tier):
             if spec.get("constraints") is not None:
                 spec["constraints"] = solvergen.gen_constraints(rng, spec["dim"], (lo, hi))
             spec["ranges"] = (lo, hi, tight, clip); spec["box_kind"] = bk
+        if spec.get("ranges") and rng.random() < 0.3:
+            # constraints that push points out of the box: the property must hold regardless (model replay skipped)
+            spec["constraints"] = solvergen.gen_pushing_constraints(rng, spec["dim"], (spec["ranges"][0], spec["ranges"][1]))
+            spec["inplace"] = rng.random() < 0.5
+            spec["pushing"] = True
     elif pid == "C03":
         spec = solvergen.gen_spec(rng, maxdim=maxdim, nsteps=nsteps, flavour="steps" if k < 0.6 else "ops")
         if spec.get("constraints") is None:
@@ -41,6 +46,7 @@ def gen_for(pid, rng, tier):
             spec["inplace"] = rng.random() < 0.5
     elif pid == "C04":
         spec = solvergen.gen_spec(rng, maxdim=maxdim, nsteps=nsteps, flavour=rng.choice(["steps", "ops", "ops", "solve"]))
+        spec["monitor_ops"] = True
         if rng.random() < 0.15:
             spec["evalmon"] = False
     else:
@@ -75,6 +81,19 @@ def wrapper_case(pid, rng):
         kw["penalty"] = lambda x: dsl.ev(pen, [float(v) for v in np.ravel(x)])
     maxiter = rng.choice([None, 1, 2, 3, 5, 30]); maxfun = rng.choice([None, 1, 5, 20, 200])
     which = rng.choice(["fmin", "fmin_powell", "diffev", "diffev2"])
+    npop = rng.randint(4, 8)
+    if pid == "C05" and rng.random() < 0.35:
+        # runs that do NOT converge before the solver's DEFAULT limits: slowly improving cost far above its target
+        which = rng.choice(["diffev", "diffev2", "fmin"])
+        dim = 2; npop = 4; pen = None; kw = {}
+        cost_spec = ("scalar", ("sum", ("*", ("c", 100.0), ("sq", ("-", ("x", 1), ("sq", ("x", 0))))), ("sq", ("-", ("c", 1.0), ("x", 0))), ("c", 10.0),
+                                ("*", ("c", 1e-3), ("abs", ("x", 0)))))
+        maxiter = None; maxfun = rng.choice([None, 10 ** 7])
+        kw["ftol"] = 1e-30
+        if which == "fmin":
+            kw["xtol"] = 1e-30
+        else:
+            kw["gtol"] = 10 ** 6
     x0 = [common.dyadic(rng, -3, 3, 4) for _ in range(dim)]
     _random.seed(rng.randrange(2**31)); np.random.seed(rng.randrange(2**31))
     try:
@@ -83,9 +102,9 @@ def wrapper_case(pid, rng):
         elif which == "fmin_powell":
             x, f, it, fc, wf = fmin_powell(cost, x0, maxiter=maxiter, maxfun=maxfun, full_output=1, disp=0, **kw)[:5]
         elif which == "diffev":
-            x, f, it, fc, wf = diffev(cost, x0, npop=rng.randint(4, 8), maxiter=maxiter, maxfun=maxfun, full_output=1, disp=0, **kw)
+            x, f, it, fc, wf = diffev(cost, x0, npop=npop, maxiter=maxiter, maxfun=maxfun, full_output=1, disp=0, **kw)
         else:
-            x, f, it, fc, wf = diffev2(cost, x0, npop=rng.randint(4, 8), maxiter=maxiter, maxfun=maxfun, full_output=1, disp=0, **kw)
+            x, f, it, fc, wf = diffev2(cost, x0, npop=npop, maxiter=maxiter, maxfun=maxfun, full_output=1, disp=0, **kw)
     except Exception as exc:
         return [("wrapper/%s/raises" % which, "%s raised %r" % (which, exc), {"x0": x0})], which
     x = [float(v) for v in np.ravel(x)]; f = float(np.ravel(f)[0])
@@ -105,13 +124,75 @@ def wrapper_case(pid, rng):
         if int(fc) != len(calls):
             out.append(("wrapper/%s/funcalls" % which, "%s reports %d function calls, %d were made" % (which, fc, len(calls)), case))
     if pid == "C05":
-        if wf == 1 and not (maxfun is not None and fc >= maxfun) and maxfun is not None:
-            out.append(("wrapper/%s/warnflag" % which, "warnflag 1 but funcalls %d < maxfun %r" % (fc, maxfun), case))
-        if wf == 2 and maxiter is not None and not (it >= maxiter):
-            out.append(("wrapper/%s/warnflag" % which, "warnflag 2 but iterations %d < maxiter %r" % (it, maxiter), case))
+        # the limits in force when None is passed are the solver defaults: N * nPop * scale
+        scale = {"fmin": (200, 200), "fmin_powell": (1000, 1000), "diffev": (10, 1000), "diffev2": (10, 1000)}[which]
+        NP = max(npop, dim, 4) if which.startswith("diffev") else 1
+        mi = maxiter if maxiter is not None else dim * NP * scale[0]
+        mf = maxfun if maxfun is not None else dim * NP * scale[1]
+        want = 1 if fc >= mf else (2 if it >= mi else 0)
+        case["limits_in_force"] = [mi, mf]
+        if int(wf) != want and which != "fmin_powell":
+            out.append(("wrapper/%s/warnflag" % which, "warnflag %d but iterations=%d (limit %d) funcalls=%d (limit %d): expected %d" % (wf, it, mi, fc, mf, want), case))
+        if which == "fmin_powell" and ((wf == 1 and fc < mf) or (wf == 2 and it < mi)):
+            out.append(("wrapper/%s/warnflag" % which, "warnflag %d but iterations=%d (limit %d) funcalls=%d (limit %d)" % (wf, it, mi, fc, mf), case))
         if maxiter is not None and it > maxiter and which != "fmin_powell":
             out.append(("wrapper/%s/iterations-exceed" % which, "iterations %d > maxiter %d" % (it, maxiter), case))
     return out, which
+
+
+_ENS_CALLS = []
+_ENS_EXPR = [None]
+
+
+def _ens_cost(x):
+    """module-level cost (ensemble members copy the objective with dill: closures would be copied by value)"""
+    xv = [float(v) for v in np.ravel(x)]
+    y = dsl.ev(_ENS_EXPR[0], xv)
+    _ENS_CALLS.append((xv, y))
+    return y
+
+
+def ensemble_case(rng):
+    """C01 for ensembles of solvers: the reported best is an evaluated point carrying its own cost"""
+    common.import_mystic()
+    from mystic.solvers import LatticeSolver, BuckshotSolver, DifferentialEvolutionSolver, DifferentialEvolutionSolver2, NelderMeadSimplexSolver, PowellDirectionalSolver
+    from mystic.termination import VTR
+    out = []
+    dim = rng.randint(1, 3)
+    cost_spec = solvergen.gen_cost(rng, dim, allow_vector=False)
+    _ENS_EXPR[0] = cost_spec[1]
+    del _ENS_CALLS[:]
+    nested = rng.choice(["NM", "Powell", "DE", "DE2", "DE", "DE2"])
+    kind = rng.choice(["lattice", "buckshot"])
+    _random.seed(rng.randrange(2**31)); np.random.seed(rng.randrange(2**31))
+    lo = [common.dyadic(rng, -4, 0, 2) for _ in range(dim)]; hi = [a + 2.0 + abs(common.dyadic(rng, 0, 3, 2)) for a in lo]
+    if kind == "lattice":
+        s = LatticeSolver(dim, nbins=[rng.randint(1, 2) for _ in range(dim)])
+    else:
+        s = BuckshotSolver(dim, npts=rng.randint(2, 4))
+    cls = {"NM": NelderMeadSimplexSolver, "Powell": PowellDirectionalSolver, "DE": DifferentialEvolutionSolver, "DE2": DifferentialEvolutionSolver2}[nested]
+    if nested in ("DE", "DE2"):
+        s.SetNestedSolver(cls(dim, rng.randint(4, 6)))
+    else:
+        s.SetNestedSolver(cls)
+    s.SetStrictRanges(lo, hi)
+    s.SetEvaluationLimits(generations=rng.choice([2, 3, 5, 8]))
+    case = {"ensemble": kind, "nested": nested, "dim": dim, "cost": dsl.expr_sexp(cost_spec[1]), "lo": lo, "hi": hi}
+    try:
+        s.Solve(_ens_cost, VTR(1e-8))
+    except Exception as exc:
+        return [], "%s:%s:raised-%s" % (kind, nested, type(exc).__name__)
+    best = [float(v) for v in np.ravel(s.bestSolution)]; e = float(np.ravel(s.bestEnergy)[0])
+    case["reported"] = [best, e]; case["real_calls"] = len(_ENS_CALLS)
+    if any(y != y for _, y in _ENS_CALLS) or not math.isfinite(e):
+        return [], "%s:%s:skipped" % (kind, nested)
+    if not any(common.same_vec(best, c[0]) for c in _ENS_CALLS):
+        out.append(("ensemble/%s-%s/best-not-evaluated" % (kind, nested), "ensemble reports best %r that was never passed to the cost" % (best,), case))
+    else:
+        want = dsl.ev(cost_spec[1], best)
+        if not (want == e):
+            out.append(("ensemble/%s-%s/energy-mismatch" % (kind, nested), "ensemble reports energy %r but cost(best) = %r" % (e, want), case))
+    return out, "%s:%s" % (kind, nested)
 
 
 def initial_points_case(rng):
@@ -211,6 +292,11 @@ def run_shard(pid, seed, shard, ncases, tier, extra):
         if pid in ("C01", "C04", "C05"):
             res, which = wrapper_case(pid, rng)
             hist["wrapper:" + which] = hist.get("wrapper:" + which, 0) + 1
+            for key, what, case in res:
+                findings.append(Finding("monitor", key, what, case))
+        if pid == "C01" and k % 3 == 0:
+            res, tag = ensemble_case(rng)
+            hist["ensemble:" + tag] = hist.get("ensemble:" + tag, 0) + 1
             for key, what, case in res:
                 findings.append(Finding("monitor", key, what, case))
         if pid == "C02":
